@@ -78,3 +78,18 @@ func grow(s []int, n int) []int {
 	}
 	return s
 }
+
+// the guard is in the only caller
+func (w *W) emit(b []byte) {
+	if len(b) == 0 {
+		return
+	}
+	if w.glues(b) {
+		w.out = append(w.out, ' ')
+	}
+	w.out = append(w.out, b...)
+}
+
+func (w *W) glues(b []byte) bool {
+	return w.last != nil && b[0] == ' '
+}
